@@ -22,7 +22,7 @@ TECHNIQUE = 'deterministic simulation of trash-rm on generated multi-volume tras
 LEVEL_TEXT = 'seeded exploration of pattern x name-set; set equality between removed pairs and the model matcher; survivors byte-identical'
 LEVEL_NOTE = 'trusted: model/glob.py (backtracking matcher written from the fnmatch documentation), model/bag.py'
 
-NAMES = ['foo', 'Foo', 'FOO', 'foobar', 'fo', 'f', 'bar', 'a*b', 'a?b', '[x]', 'a[b', 'x]y', 'a-b', '!bang', 'file.txt',
+NAMES = ['notes', 'notes.trashinfo', 'x.trashinfo.trashinfo', '.trashinfo', 'foo', 'Foo', 'FOO', 'foobar', 'fo', 'f', 'bar', 'a*b', 'a?b', '[x]', 'a[b', 'x]y', 'a-b', '!bang', 'file.txt',
          'file.TXT', 'file.txt.bak', '.hidden', 'with space', 'new\nline', 'a', 'b', 'ab', 'abc', 'é', '*', '?', '-', 'a!b']
 
 
